@@ -411,15 +411,18 @@ func (ctrler *GovCtrler) applyProposals(height int64) ([]abytes.HexBytes, xerror
 					newGovParams := &ctrlertypes.GovParams{}
 
 					//
-					// hotfix
+					// hotfix: only for an option that can not be parsed as it is.
+					// An option that ValidateTrx accepted (e.g. `{"gasPrice":""}`) is applied as it was validated.
 					strOpt := string(prop.MajorOption.Option())
-					if strings.HasSuffix(strOpt, `""}`) {
-						strOpt = strings.ReplaceAll(strOpt, `""}`, `"}`)
+					err := json.Unmarshal([]byte(strOpt), newGovParams)
+					if err != nil && strings.HasSuffix(strOpt, `""}`) {
+						newGovParams = &ctrlertypes.GovParams{}
+						err = json.Unmarshal([]byte(strings.ReplaceAll(strOpt, `""}`, `"}`)), newGovParams)
 					}
 					//
 					//
 
-					if err := json.Unmarshal([]byte(strOpt), newGovParams); err != nil {
+					if err != nil {
 						ctrler.logger.Error("Apply proposal", "error", err, "option", string(prop.MajorOption.Option()))
 						return xerrors.From(err)
 					}
